@@ -633,6 +633,40 @@ theorem session_then_star_converges (H : Hasher) (net : Net) (acts : List NetAct
 
 end
 
+/-! ## the two-node exchange, hypotheses revisited
+
+  `sync_converges_partial` (Props/C18.lean) lists: `Ideal H`, `StreamOK vs` (properties of the hash
+  and of the byte stream — discharged for the current tree by `ideal_sip_hasher` /
+  `streamOK_byteStream` from `SipIdeal`), well-formedness and valid iteration orders (true of
+  every `HashMap`), "the digests differ", "the limit covers either side's candidate keys", and
+  tie-consistency on the common keys (C07).  The exchange is bidirectional BY CONSTRUCTION
+  (`AE.exchange` applies both delta sets crosswise, as `run_anti_entropy_sync` does): that is not
+  a hypothesis.  "The digests differ" is removed here — when they do not, nothing is exchanged and
+  the digests computed afterwards, in whatever new iteration orders, are equal again.  The limit
+  hypothesis cannot go: below the candidate population the same prefix is answered every round
+  (`sync_terminates_counterexample`, the recorded finding). -/
+
+/-- **C18 (one round leaves the pair in sync), without "the digests differ"** -/
+theorem sync_converges_any_digests (arr : Arrange) (harr : ArrOK arr) (H : Hasher) (vs : ValueStream) (depth limit : Nat)
+    (πa πb π1 π2 : List Nat) (a b : NMap RV)
+    (hI : Ideal H) (hvs : StreamOK vs) (ha : NMap.WF a) (hb : NMap.WF b) (hπa : ValidOrder πa a) (hπb : ValidOrder πb b)
+    (hla : (candidates H depth πa a (divergentBuckets (fromState H true vs depth πa a) (fromState H true vs depth πb b))).length ≤ limit)
+    (hlb : (candidates H depth πb b (divergentBuckets (fromState H true vs depth πa a) (fromState H true vs depth πb b))).length ≤ limit)
+    (htie : ∀ k u v, NMap.get a k = some u → NMap.get b k = some v → u.WF ∧ v.WF ∧ C07.TieConsistent u v)
+    (h1 : ValidOrder π1 (syncRoundWith arr H true vs depth limit πa πb a b).1)
+    (h2 : ValidOrder π2 (syncRoundWith arr H true vs depth limit πa πb a b).2) :
+    differsFrom (fromState H true vs depth π1 (syncRoundWith arr H true vs depth limit πa πb a b).1)
+      (fromState H true vs depth π2 (syncRoundWith arr H true vs depth limit πa πb a b).2) = false := by
+  cases hd : differsFrom (fromState H true vs depth πa a) (fromState H true vs depth πb b) with
+  | true => exact sync_converges_partial arr harr H vs depth limit πa πb π1 π2 a b hI hvs ha hb hπa hπb hd hla hlb htie h1 h2
+  | false =>
+    have hr : syncRoundWith arr H true vs depth limit πa πb a b = (a, b) := by
+      unfold syncRoundWith; simp [hd]
+    rw [hr] at h1 h2 ⊢
+    simp only [] at h1 h2 ⊢
+    rw [digest_order_independent H vs depth π1 πa a h1 hπa, digest_order_independent H vs depth π2 πb b h2 hπb]
+    exact hd
+
 /-! ## what the managers can observe: equal digests -/
 
 /-- **C18 (in sync, as the managers see it, means merged)**: ideal byte hash, one configured depth.
